@@ -210,7 +210,7 @@ idl_a_demux_feed		(vbi_idl_demux *	dx,
 	flags = dx->flags | (ial & VBI_IDL_DEPENDENT);
 	dx->flags &= ~VBI_IDL_DATA_LOST;
 
-	return dx->callback (dx, buf, j, dx->flags, dx->user_data);
+	return dx->callback (dx, buf, j, flags, dx->user_data);
 }
 
 
@@ -441,6 +441,7 @@ _vbi_idl_demux_init		(vbi_idl_demux *	dx,
 	dx->format		= format;
 	dx->channel		= channel;
 	dx->address		= address;
+	dx->flags		= 0;
 
 	vbi_idl_demux_reset (dx);
 
